@@ -467,10 +467,6 @@ Section Proofs.
   Proof.
     intros Hwf Hov Hb Hw Hs. unfold resolve_one. rewrite (select_default wat fs cfg k Hwf Hov).
     unfold default_choice, is_dir, exists_. rewrite Hb.
-    assert (E : (if wat then match fs (suffixed cfg k s_wat) with Absent => suffixed cfg k s_wasm
-                                                             | _ => suffixed cfg k s_wat end
-                 else suffixed cfg k s_wasm) = suffixed cfg k s_wasm).
-    { destruct wat; [|reflexivity]. now rewrite Hw. }
     replace (if wat then if match fs (suffixed cfg k s_wat) with Absent => false | _ => true end
                          then suffixed cfg k s_wat else suffixed cfg k s_wasm
              else suffixed cfg k s_wasm) with (suffixed cfg k s_wasm).
